@@ -364,7 +364,7 @@ class Level:
                 addc(x, k_and(pa, self.Eq(a["id"], val)),
                      ("requires_if", "is required by argument %s having value %r (requires_if)" % (sid(a["id"]), val), [a["id"]]))
         for g in self.groups.values():
-            pg = k_any(P(m) for m in g["args"] if m in self.args)
+            pg = P(g["id"])      # member-based (honours the counterfactual assumption of classify_known)
             if pg is False:
                 continue
             for x in g["requires"]:
@@ -450,9 +450,9 @@ class Level:
         """group entries reported explicit although no member is reported explicit"""
         out = set()
         for gid, g in self.groups.items():
+            # members reported non-explicit are definitely absent (also global ones: the propagation of
+            # global values reports the maximum source over the chain)
             if gid in self.explicit and gid not in self.args and not any(m in self.explicit for m in g["args"]):
-                if self.multi and any(m in self.global_ids for m in g["args"]):
-                    continue
                 out.add(gid)
         return out
 
